@@ -68,6 +68,45 @@ MAY_ALWAYS_RAISE = {
 }
 
 
+_SHORTCUTS = {}
+
+
+def shortcut_params(cname):
+    """[(attr, value)]: numeric literals the CURRENT source of the family (and of the shared base class) compares
+    `self.theta` / `self.tau` against - the parameter values that select shortcut branches (Gumbel theta == 1,
+    Frank theta == 0, tau == 1, ...), plus their float neighbours"""
+    if cname in _SHORTCUTS:
+        return _SHORTCUTS[cname]
+    import ast
+    import math
+    import os
+    files = {'Clayton': 'clayton', 'Frank': 'frank', 'Gumbel': 'gumbel', 'Independence': 'independence',
+             'Bivariate': 'frank'}
+    found = []
+    for rel in (f'copulas/bivariate/{files[cname]}.py', 'copulas/bivariate/base.py'):
+        try:
+            tree = ast.parse(open(os.path.join(vc.REPO, rel)).read())
+        except Exception:     # noqa
+            continue
+        for node in ast.walk(tree):
+            if not isinstance(node, ast.Compare):
+                continue
+            terms = [node.left] + list(node.comparators)
+            attrs = [t.attr for t in terms if isinstance(t, ast.Attribute) and t.attr in ('theta', 'tau')
+                     and isinstance(t.value, ast.Name) and t.value.id == 'self']
+            for t in terms:
+                neg = isinstance(t, ast.UnaryOp) and isinstance(t.op, ast.USub)
+                c = t.operand if neg else t
+                if isinstance(c, ast.Constant) and type(c.value) in (int, float):
+                    v = -float(c.value) if neg else float(c.value)
+                    for a in attrs:
+                        for w in (v, math.nextafter(v, math.inf), math.nextafter(v, -math.inf)):
+                            if (a, w) not in found:
+                                found.append((a, w))
+    _SHORTCUTS[cname] = found
+    return found
+
+
 def short(key):
     ps = key.split('.')
     if ps[-2][:1].isupper():
@@ -297,7 +336,13 @@ class Gen:
                     np.random.set_state(st)
         return copy.deepcopy(self.cache[key])
 
-    def biv_model(self, cname):
+    def biv_model(self, cname, variant=None):
+        m = self._biv_model(cname)
+        if variant is not None:
+            setattr(m, variant[0], variant[1])
+        return m
+
+    def _biv_model(self, cname):
         from copulas.bivariate import Bivariate, Clayton, Frank, Gumbel
         from copulas.bivariate.independence import Independence
 
@@ -378,9 +423,21 @@ class Gen:
             return out
         return Case(entry, tag, label, make_fn, fresh_args, tuple(tracked))
 
-    def bound(self, cname, meth):
+    def shortcut_batches(self):
+        """batches that select row-level / whole-batch shortcuts: a column of zeros, a column of ones"""
+        out = []
+        for name, col, val in (('zeros-col0', 0, 0.0), ('zeros-col1', 1, 0.0), ('ones-col0', 0, 1.0),
+                               ('ones-col1', 1, 1.0)):
+            u = self.uniforms(9)
+            u[:, col] = val
+            out.append((name, u))
+        out.append(('all-zeros', np.zeros((6, 2))))
+        out.append(('all-ones', np.ones((6, 2))))
+        return out
+
+    def bound(self, cname, meth, variant=None):
         """the method of a fresh model; for the base class: the BASE implementation on a concrete instance"""
-        m = self.biv_model(cname)
+        m = self.biv_model(cname, variant)
         if cname == 'Bivariate':
             from copulas.bivariate import Bivariate
             base = getattr(Bivariate, meth)
@@ -405,20 +462,48 @@ class Gen:
                     m.fit(X)
                     return fitted_then_used(m, X)
                 return run
-            for kind, a in self.array_kinds(U) + [('closed/ndarray', self.closed_uniforms())]:
+            for kind, a in self.array_kinds(U) + [('closed/ndarray', self.closed_uniforms())] + \
+                    [(f'batch:{n}', b) for n, b in self.shortcut_batches()]:
                 yield self.mk(entry, tag, kind, make_fn, lambda a=a: {'X': a}, ['X'])
+        elif meth == 'check_marginal':
+            vecs = self.vec_kinds(U[:, 0], lists=False) + [('closed', self.closed_uniforms()[:, 0]),
+                                                           ('zeros', np.zeros(7)), ('ones', np.ones(7))]
+            for kind, a in vecs:
+                yield self.mk(entry, tag, kind, lambda: self.bound(cname, meth), lambda a=a: {'u': a}, ['u'])
+        elif meth == 'partial_derivative_scalar':
+            C = self.closed_uniforms()
+            variants = [None] + shortcut_params(cname)
+            for var in variants:
+                for where, (u, v) in (('open', (U[:6, 0], U[:6, 1])), ('closed', (C[:10, 0], C[:10, 1]))):
+                    yield self.mk(entry, tag, f'{var}/{where}', lambda var=var: self.bound(cname, meth, var),
+                                  lambda u=u, v=v: {'U': np.array(u), 'V': np.array(v)}, ['U', 'V'])
         elif meth in ('probability_density', 'pdf', 'log_probability_density', 'cumulative_distribution', 'cdf',
                       'partial_derivative'):
             for where, pts in (('open', U), ('closed', self.closed_uniforms())):
                 for kind, a in self.array_kinds(pts):
                     yield self.mk(entry, tag, f'{where}/{kind}', lambda: self.bound(cname, meth),
                                   lambda a=a: {'X': a}, ['X'])
+            # row-level shortcuts at the ordinary parameter, and every parameter value that selects a shortcut
+            # branch (literals the source compares theta / tau against) on ordinary, closed and shortcut batches
+            for bname, a in self.shortcut_batches():
+                yield self.mk(entry, tag, f'batch:{bname}', lambda: self.bound(cname, meth), lambda a=a: {'X': a}, ['X'])
+            for var in shortcut_params(cname):
+                batches = [('open', U[:10]), ('closed', self.closed_uniforms())] + self.shortcut_batches()[:2]
+                for bname, a in batches:
+                    yield self.mk(entry, tag, f'{var[0]}={var[1]!r}/{bname}',
+                                  lambda var=var: self.bound(cname, meth, var), lambda a=a: {'X': a}, ['X'])
         elif meth in ('percent_point', 'ppf'):
             C = self.closed_uniforms()
             for where, (y, v) in (('open', (U[:8, 0], U[:8, 1])), ('closed', (C[:10, 0], C[:10, 1]))):
                 for (k1, a), (k2, b) in zip(self.vec_kinds(y), self.vec_kinds(v)):
                     yield self.mk(entry, tag, f'{where}/{k1}', lambda: self.bound(cname, meth),
                                   lambda a=a, b=b: {'y': a, 'V': b}, ['y', 'V'])
+            for var in shortcut_params(cname):
+                for where, (y, v) in (('open', (U[:6, 0], U[:6, 1])), ('closed', (C[:10, 0], C[:10, 1])),
+                                      ('zeros', (np.zeros(4), U[:4, 1])), ('ones', (U[:4, 0], np.ones(4)))):
+                    yield self.mk(entry, tag, f'{var[0]}={var[1]!r}/{where}',
+                                  lambda var=var: self.bound(cname, meth, var),
+                                  lambda y=y, v=v: {'y': np.array(y), 'V': np.array(v)}, ['y', 'V'])
         elif meth == 'generator':
             t = np.concatenate([self.rs.uniform(0.02, 0.98, size=6), [0.0, 1.0, 1.0, 0.0]])
             for kind, a in self.vec_kinds(t, lists=False):
@@ -652,9 +737,36 @@ class Gen:
             for (k1, a), (k2, b) in zip(self.vec_kinds(lo, lists=False), self.vec_kinds(hi, lists=False)):
                 yield self.mk(entry, tag, k1, lambda: fn,
                               lambda a=a, b=b: {'f': (lambda x: x ** 3 - c), 'xmin': a, 'xmax': b}, ['xmin', 'xmax'])
+        elif modname == 'copulas.bivariate.utils':
+            from copulas.bivariate.utils import split_matrix
+            for kind, a in self.array_kinds(self.uniforms()) + [('empty', np.zeros((0, 2)))]:
+                yield self.mk(entry, tag, kind, lambda: split_matrix, lambda a=a: {'X': a}, ['X'])
+        elif modname == 'copulas.bivariate' and fname == '_compute_empirical':
+            import copulas.bivariate as B
+            batches = self.array_kinds(self.uniforms()) + [('closed/ndarray', self.closed_uniforms())] + \
+                [(f'batch:{n}', b) for n, b in self.shortcut_batches()]
+            for kind, a in batches:
+                yield self.mk(entry, tag, kind, lambda: B._compute_empirical, lambda a=a: {'X': a}, ['X'])
+        elif modname == 'copulas.bivariate' and fname == '_compute_tail':
+            import copulas.bivariate as B
+            z = np.linspace(0.05, 0.9, 8)
+            c = z ** 2
+            for (k1, a), (k2, b) in zip(self.vec_kinds(c), self.vec_kinds(z)):
+                yield self.mk(entry, tag, k1, lambda: B._compute_tail, lambda a=a, b=b: {'c': a, 'z': b}, ['c', 'z'])
+        elif modname == 'copulas.bivariate' and fname == '_compute_candidates':
+            import copulas.bivariate as B
+            z = np.linspace(0.05, 0.9, 8)
+            for (k1, a), (k2, b) in zip(self.vec_kinds(z), self.vec_kinds(z[::-1].copy())):
+                yield self.mk(entry, tag, k1, lambda: B._compute_candidates,
+                              lambda a=a, b=b: {'copulas': [self.biv_model('Frank'), self.biv_model('Clayton'),
+                                                            self.biv_model('Gumbel', ('theta', 1.0))],
+                                                'left_tail': a, 'right_tail': b},
+                              ['copulas', 'left_tail', 'right_tail'])
         elif modname == 'copulas.bivariate':
             from copulas.bivariate import select_copula
-            for kind, a in self.array_kinds(self.uniforms()) + [('closed/ndarray', self.closed_uniforms())]:
+            batches = self.array_kinds(self.uniforms()) + [('closed/ndarray', self.closed_uniforms())] + \
+                [(f'batch:{n}', b) for n, b in self.shortcut_batches()]
+            for kind, a in batches:
                 yield self.mk(entry, tag, kind, lambda: (lambda X: state(select_copula(X))),
                               lambda a=a: {'X': a}, ['X'])
         elif modname == 'copulas.datasets':
@@ -804,7 +916,16 @@ def run_case(case):
         r3 = call(case.make_fn, probe)
         if r3[0] == 'exc' and any(m in r3[2] for m in WRITE_MSGS) and not (r1[0] == 'exc' and r1[2] == r3[2]):
             evidence[name] = f'{name}: in-place write attempted on a read-only array ({r3[2][:60]})'
+    view = False
+    if r1[0] == 'ok':
+        outs = r1[1] if isinstance(r1[1], (tuple, list)) else [r1[1]]
+        for o in outs:
+            for a in args.values():
+                if isinstance(o, np.ndarray) and isinstance(a, np.ndarray) and o.size and a.size \
+                        and np.shares_memory(o, a):
+                    view = True
     return {'mutated': sorted(evidence, key=list(case.tracked).index), 'evidence': evidence, 'reuse': reuse,
+            'view': view,
             'reached': r1[0] == 'ok' or r1[1] != 'TypeError', 'result': r1[0] if r1[0] == 'ok' else r1[1]}
 
 
@@ -913,6 +1034,8 @@ def sweep(ctx, stream, rounds, only=None):
                     ctx.case((case.entry, case.tag, case.label, stream, r), nontrivial=res['reached'])
                     ctx.count(f'dyn:{case.tag.split(".")[-1]}:{case.label.split("/")[-1]}')
                     ctx.count(f'dyn-result:{res["result"] if res["result"] != "ok" else "ok"}')
+                    if res.get('view'):
+                        ctx.count(f'result-is-view-of-input:{case.tag}')      # counted, not flagged
                     for p in res['mutated']:
                         o['mutated'].setdefault(p, (describe(case, res), res['evidence'][p]))
                     if res['reuse']:
